@@ -31,3 +31,26 @@ Theorem C14_tree_is_function_of_leaves : forall t t', canon_root t -> canon_root
   Permutation (sleaves t) (sleaves t') -> t = t'.
 Proof. exact canon_root_unique. Qed.
 Print Assumptions C14_tree_is_function_of_leaves.
+
+(* one epoch inserted in pieces: the caller puts the epoch counter back between the calls (which is
+   how sub-batches of one epoch are inserted through Azks::batch_insert_nodes); the tree is that of
+   the single batch.  [bound] is the newest epoch the tree may already hold. *)
+Theorem C14_sub_batches_two : forall empty, canonical empty = false -> forall root latest bound num b1 b2,
+  root_inv bound root -> bound <= latest + 1 -> batch_ok (b1 ++ b2) ->
+  (forall x y, In x (b1 ++ b2) -> In y (leaves root) -> e_label x <> lf_label y) ->
+  exists r1 n1 r n2 n12,
+    batch_insert empty (root, latest, num) b1 = Some (r1, latest + 1, n1) /\
+    batch_insert empty (r1, latest, n1) b2 = Some (r, latest + 1, n2) /\
+    batch_insert empty (root, latest, num) (b1 ++ b2) = Some (r, latest + 1, n12) /\
+    root_inv (latest + 1) r1 /\
+    (forall x y, In x b2 -> In y (leaves r1) -> e_label x <> lf_label y).
+Proof. exact batch_insert_split. Qed.
+Print Assumptions C14_sub_batches_two.
+
+Theorem C14_sub_batches : forall empty, canonical empty = false -> forall ps root latest bound num,
+  root_inv bound root -> bound <= latest + 1 -> batch_ok (concat ps) ->
+  (forall x y, In x (concat ps) -> In y (leaves root) -> e_label x <> lf_label y) ->
+  exists r n n', run_pieces empty root latest num ps = Some (r, n) /\
+                 batch_insert empty (root, latest, num) (concat ps) = Some (r, latest + 1, n').
+Proof. exact pieces_as_one. Qed.
+Print Assumptions C14_sub_batches.
